@@ -325,9 +325,9 @@ reg(
 
 reg(
     "C07",
-    RULE="(server certificate, client settings, route, backend): leaf in {exact, wildcard, upper-case wildcard, IPv4, IPv6, commonName-only, other name, multi-SAN} x issuer in {trusted, untrusted CA} x requested host form (case, trailing dot, sub-label, bare domain, IPv4, bracketed IPv6 with and without zone, A-label) x cert_reqs in {unset, REQUIRED, OPTIONAL, NONE} x assert_hostname in {unset, False, matching name, other name} x assert_fingerprint in {unset, sha256, sha1, md5, colon/upper-case spelling, wrong digest, bad length} x server_hostname in {unset, right, wrong} x ssl_context in {none, default-like, check_hostname off, verify none} x CA source in {ca_certs, ca_cert_data, none} x route in {direct, CONNECT tunnel through an http proxy, CONNECT tunnel through an https proxy (TLS-in-TLS, ssl backend only)} x backend in {ssl, pyOpenSSL}; one-factor-at-a-time around the secure default for every leaf x host, plus random lattice points; a case is that tuple; all non-trivial (each makes a real handshake)",
+    RULE="(server certificate, client settings, route, backend): leaf in {exact, wildcard, upper-case wildcard, IPv4, IPv6, commonName-only, other name, multi-SAN} x issuer in {trusted, untrusted CA} x requested host form (case, trailing dot, sub-label, bare domain, IPv4, bracketed IPv6 with and without zone, A-label) x cert_reqs in {unset, REQUIRED, OPTIONAL, NONE} x assert_hostname in {unset, False, matching name, other name} x assert_fingerprint in {unset, sha256, sha1, md5, colon/upper-case spelling, wrong digest, bad length} x server_hostname in {unset, right, wrong} x ssl_context in {none, default-like, check_hostname off, verify none} x CA source in {ca_certs, ca_cert_data, none, and the same two naming only the second CA} x route in {direct, CONNECT tunnel through an http proxy, CONNECT tunnel through an https proxy (TLS-in-TLS, ssl backend only)} x backend in {ssl, pyOpenSSL}; one-factor-at-a-time around the secure default for every leaf x host, plus random lattice points; a case is that tuple; all non-trivial (each makes a real handshake)",
     ASSUMPTIONS=COMMON_ASSUMPTIONS + [
-        "reference 'demanded checks': chain validation is demanded unless the effective mode is CERT_NONE (cert_reqs if given, else the caller context's verify_mode, else REQUIRED) and passes iff the issuer is the configured CA; a pin replaces the hostname check; otherwise a hostname match is demanded unless assert_hostname is False, against assert_hostname / server_hostname / the requested host (brackets, zone and trailing dot removed), judged by the three-valued RFC 6125 reference of C08 with commonName disabled",
+        "reference 'demanded checks': chain validation is demanded unless the effective mode is CERT_NONE (cert_reqs if given, else the caller context's verify_mode, else REQUIRED) and passes iff the leaf's issuer is the CA the client was configured with (either of two CAs can be the configured one, so that trust anchors left over from an earlier connection in the same process would show); a pin replaces the hostname check; otherwise a hostname match is demanded unless assert_hostname is False, against assert_hostname / server_hostname / the requested host (brackets, zone and trailing dot removed), judged by the three-valued RFC 6125 reference of C08 with commonName disabled",
         "cert_reqs=CERT_NONE on a caller-supplied context that keeps check_hostname on is a configuration conflict the ssl module rejects with ValueError before any I/O; only 'no bytes sent' is judged there",
         "'socket closed' is observed on the server side (the handler sees EOF within 2.5 s while the harness still holds the raised exception); 'not one byte' is the number of application-data bytes the origin decrypted",
         "under pyOpenSSL 26 the ca_cert_data-only configuration fails closed in urllib3.contrib.pyopenssl (load_verify_locations(None, None)); it is counted as an over-strict rejection, not judged",
